@@ -17,9 +17,12 @@ from .explore import PathEnd
 def spec_eval(it, expr_src, env):
     """Evaluate a clause (string or AST) in pure mode -> value."""
     node = parse_expr(expr_src) if isinstance(expr_src, str) else expr_src
+    from .interp import PyRaise
     it.ctx.spec_depth += 1
     try:
         return it.eval(node, env)
+    except PyRaise as pr:
+        raise Unsupported('specification expression %s raises %s' % (ast.unparse(node)[:80], pr.exc.cls))
     finally:
         it.ctx.spec_depth -= 1
 
